@@ -450,7 +450,38 @@ def _specialise(prog, f, var, value):
     return _specialise_sh(prog, f, var, value, operator_calls=True)
 
 
+def _quoted_name_is_text(prog, rep, rule):
+    """a back-quoted name is a NAME: Resolver.visitQuotedNameExpr builds Term(Variable(<the lexeme without its back-quotes>)) - the
+    text itself, on every path.  The algebra tells names from numbers by type (`isinstance(name, (int, float))` guards the
+    interactions), so a quoted name converted to a number would be refused by `:`, `*`, `/` or counted as a power."""
+    f = prog.fn("resolver.Resolver.visitQuotedNameExpr")
+    p = f.params[1]
+    rets = [n for n in walk_local(f.node) if isinstance(n, ast.Return)]
+    want = f"{p}.expression.lexeme[1:-1]"
+    ok = len(rets) == 1 and isinstance(rets[0].value, ast.Call) and unparse(rets[0].value.func) == "Term" and len(rets[0].value.args) == 1 \
+        and isinstance(rets[0].value.args[0], ast.Call) and unparse(rets[0].value.args[0].func) == "Variable" and rets[0].value.args[0].args
+    shown = unparse(rets[0].value) if rets else "no return"
+    if ok:
+        a = rets[0].value.args[0].args[0]
+        hops = 0
+        while isinstance(a, ast.Name) and hops < 4:
+            stores = [n for n in ast.walk(f.node) if isinstance(n, ast.Name) and n.id == a.id and isinstance(n.ctx, ast.Store)]
+            ds = [s_ for s_ in walk_local(f.node) if isinstance(s_, ast.Assign) and len(s_.targets) == 1 and unparse(s_.targets[0]) == a.id]
+            if len(stores) != 1 or len(ds) != 1:
+                shown = f"`{a.id}` is bound {len(stores)} times"
+                a = None
+                break
+            a = ds[0].value
+            hops += 1
+        ok = a is not None and unparse(a) == want
+        if a is not None and not ok:
+            shown = unparse(a)
+    obl(rep, f, f.node, rule, bool(ok), "a back-quoted name resolves to Term(Variable(<its text>)): never converted", want,
+        f"the name handed to Variable is not the quoted text itself ({shown}): the operators treat non-string names as numbers")
+
+
 def r2_3(prog, rep):
+    _quoted_name_is_text(prog, rep, "R2.3")
     sm, _ = extract_scan_token(prog)
     kind2lex = {k: lx for lx, (k, _) in sm.table.items()}
     f = prog.fn("resolver.Resolver.visitBinaryExpr")
